@@ -30,6 +30,20 @@ def supported (fr : Frame) (reqs : List Req) : Bool :=
         | .none => true
         | _ => false
 
+def decodeOp : PyVal → Option Op
+  | .list [.str "groups"] => some .groups
+  | .list [.str "aggregate", .list reqs] => do
+    let reqs ← reqs.mapM decodeReq
+    pure (.aggregate reqs)
+  | _ => none
+
+def opSupported (fr : Frame) : Op → Bool
+  | .aggregate reqs => supported fr reqs
+  | .groups => true
+
+def encodeTable (hr : List String × List (List PyVal)) : PyVal :=
+  .list [.str "ok", .list (hr.1.map .str), .list (hr.2.map .list)]
+
 def encode : Except Err (List String × List (List PyVal)) → List PyVal
   | .error .valueError => [.list [.str "err", .str "ValueError"]]
   | .ok (h, rows) => [.list [.str "ok", .list (h.map .str), .list (rows.map .list)]]
@@ -48,6 +62,17 @@ def handle (op : String) (args : List PyVal) : Option (List PyVal) :=
     let rows ← rows.mapM (decodeRow cols.length)
     let keyCols ← keyCols.mapM decodeStr
     pure (encode (runGroups { columns := cols, rows := rows } keyCols))
+  | "sequence", [.list cols, .list rows, .list keyCols, .list ops] => do
+    let cols ← cols.mapM decodeStr
+    let rows ← rows.mapM (decodeRow cols.length)
+    let keyCols ← keyCols.mapM decodeStr
+    let ops ← ops.mapM decodeOp
+    let fr : Frame := { columns := cols, rows := rows }
+    if ops.all (opSupported fr) then
+      match runSeq fr keyCols ops with
+      | .error .valueError => pure [.list [.str "err", .str "ValueError"]]
+      | .ok outs => pure [.list [.str "seq", .list (outs.map encodeTable)]]
+    else none
   | _, _ => none
 
 end Drv.C12
